@@ -226,7 +226,12 @@ class Points:
         sliced, points object.
         """
         val, space = self._compute_slice(val)
-        out = self._t[val]
+        if self._selects_rows_and_columns(val):
+            # torch would pair a row index list with the column index list element
+            # by element: first select the rows, then the columns of these rows
+            out = self._t[val[:-1] + (slice(None),)][..., val[-1]]
+        else:
+            out = self._t[val]
         if len(out.shape) == 1:
             out = out.unsqueeze(dim=0)
         return Points(out, space)
@@ -238,7 +243,25 @@ class Points:
         """
         val, space = self._compute_slice(key)
         assert space == points.space
-        self._t[val] = points._t
+        if self._selects_rows_and_columns(val):
+            row_index = val[:-1] + (slice(None),)
+            rows = self._t[row_index]
+            rows[..., val[-1]] = points._t
+            self._t[row_index] = rows
+        else:
+            self._t[val] = points._t
+
+    def _selects_rows_and_columns(self, val):
+        """Is a batch axis indexed by a mask/index list and the last axis by the list
+        of columns that _compute_slice created for several variable names?"""
+        if not (isinstance(val, tuple) and isinstance(val[-1], list)):
+            return False
+        addresses_last_axis = len(val) == len(self._t.shape) or any(
+            v is Ellipsis for v in val
+        )
+        return addresses_last_axis and any(
+            isinstance(v, (list, np.ndarray, torch.Tensor)) for v in val[:-1]
+        )
 
     def __iter__(self):
         """
